@@ -272,7 +272,12 @@ def _r2(run, prog, inst, mods):
         fs = {f.name: f for f in base.body if isinstance(f, ast.FunctionDef)}
 
         def value(f):
-            """the returned value as an exact rational expression in the argument and the class factor (locals resolved)"""
+            """the returned value as an exact rational expression in the argument and the class factor (helpers and locals resolved)"""
+            from ..inline import flatten, module_lookup
+            try:
+                f = flatten(f, module_lookup(cm))
+            except Exception:
+                pass
             g = propagate(f)
             rets = [r for r in ast.walk(g) if isinstance(r, ast.Return) and r.value is not None]
             if len(rets) != 1:
